@@ -105,7 +105,14 @@ CanEnter(d, gs, k) ==
   /\ \A j \in DOMAIN d.named : j > k => \A it \in FieldLeaves(d.named[j]) : gs.acc[it.id] = <<>>
   /\ (d.named[k].arity \in {"one", "opt"} => gs.blocks[k] = <<>>)
 \* a repeated occurrence of a single-use option is an item nobody claimed
-NoSurplus(d, gs) == \A k \in DOMAIN d.named : (IsLeaf(d.named[k]) /\ SingleUse(d.named[k])) => Len(gs.acc[d.named[k].id]) <= 1
+\* (so is what a bare or optional choice leaves behind: items of a second branch, a second occurrence of a member)
+NoSurplus(d, gs) ==
+  \A k \in DOMAIN d.named :
+    LET f == d.named[k] IN
+    /\ (IsLeaf(f) /\ SingleUse(f)) => Len(gs.acc[f.id]) <= 1
+    /\ (f.kind = "alt" /\ f.arity \in {"one", "opt", "fallback", "fallback_with"}) =>
+          /\ Cardinality({b \in DOMAIN f.branches : \E it \in RangeOf(f.branches[b].fields) : it.kind # "pos" /\ gs.acc[it.id] # <<>>}) <= 1
+          /\ \A it \in BranchLeaves(f) : SingleUse(it) => Len(gs.acc[it.id]) <= 1
 GWord(d, gs, w) ==
   IF gs.open.k # 0 /\ Len(gs.open.words) < Len(PosMembers(d.named[gs.open.k]))
   THEN AutoClose(d, [gs EXCEPT !.open.words = Append(@, w)])
@@ -397,6 +404,7 @@ GSwapCommutes ==
 (* ------------------------------------------------------------------ C14 on one level with choices and groups *)
 \* upper bound: visible names of the level's items that match what was typed, completer values of the pending argument
 GMayOffer(d, gs, p) ==
+  IF gs.posOnly THEN {} ELSE
   {Pref(it) : it \in {x \in GLeaves(d) : ~x.hidden /\ NameMatches(x, p)}}
   \cup (IF gs.pending # "" THEN UNION {RangeOf(x.completer) : x \in {y \in GLeaves(d) : y.id = gs.pending}} ELSE {})
   \cup UNION {IF d.named[k].kind = "adj" /\ d.named[k].head.kind = "cmd" /\ (p.k = "fresh" \/ (p.k = "word" /\ IsPrefix(p.cs, d.named[k].head.nchars[1])))
@@ -405,7 +413,7 @@ GMayOffer(d, gs, p) ==
 \* lower bound for a fresh prefix: visible names of plain items not given yet, and of the members of a choice
 \* none of whose branches has been given (items of adjacent groups are outside the property's lower bound)
 GMustOffer(d, gs, p) ==
-  IF gs.pending # "" \/ gs.posOnly \/ gs.open.k # 0 \/ p.k \notin {"fresh", "dash", "long"} THEN {}
+  IF gs.pending # "" \/ gs.posOnly \/ (gs.open.k # 0 /\ (~Complete(d, gs) \/ d.named[gs.open.k].head.kind = "cmd")) \/ p.k \notin {"fresh", "dash", "long"} THEN {}
   ELSE UNION {LET f == d.named[k] IN
               IF IsLeaf(f)
               THEN (IF ~f.hidden /\ NameMatches(f, p) /\ ~(SingleUse(f) /\ gs.acc[f.id] # <<>>) THEN {Pref(f)} ELSE {})
@@ -423,7 +431,7 @@ GPartials(d) ==
   \cup UNION {{[k |-> "long", cs |-> SubSeq(it.lchars[1], 1, n)] : n \in {1, Len(it.lchars[1]) - 1, Len(it.lchars[1])} \ {0}} : it \in {x \in GLeaves(d) : x.longs # <<>>}}
   \cup {[k |-> "short", s |-> it.shorts[1]] : it \in {x \in GLeaves(d) : x.shorts # <<>>}}
 GViable(d, gs) ==
-  /\ gs.dead = "" /\ ~gs.help /\ ~gs.posOnly
+  /\ gs.dead = "" /\ ~gs.help
   /\ \A it \in GLeaves(d) : ((SingleUse(it) /\ AdjOf(d, it.id) = {}) => (Len(gs.acc[it.id]) <= 1))
   /\ \A it \in GLeaves(d) : ((it.kind = "arg") => (\A i \in DOMAIN gs.acc[it.id] : ~BadValue(it, gs.acc[it.id][i].v)))
 GCompletionSandwich == \A p \in GPartials(def) : GMustOffer(def, st, p) \subseteq GMayOffer(def, st, p)
